@@ -1,5 +1,6 @@
 import Pymeeus.Refine.Interpolation
 import Pymeeus.Refine.Root
+import Pymeeus.Refine.Derivative
 /-
 C12 — Interpolation reproduces polynomials; roots and extrema lie where asked.
 
@@ -167,6 +168,18 @@ theorem reproduces_polynomial (xs ys : List ℚ) (o : Interp) (p : ℚ[X])
     injection hc with hc
     left; rw [← hc, hpoly]
 
+/-- "…and its derivative": `derivative(t)` is the derivative of the interpolating polynomial at `t`, for every `t`
+    inside the table; hence the derivative of any polynomial of degree `< n` the data were sampled from. -/
+theorem derivative_is_polynomial_derivative (xs ys : List ℚ) (o : Interp) (t : ℚ)
+    (hset : GenQ.Interpolation.set TOL [.list xs, .list ys] = .ok o) (ht : xfirst o ≤ t ∧ t ≤ xlast o) :
+    GenQ.Interpolation.derivative o t = .ok ((Polynomial.derivative (poly o)).eval t) ∧
+    ∀ p : ℚ[X], p.degree < (o.x.length : ℕ) → (∀ q ∈ xs.zip ys, q.2 = p.eval q.1) →
+      GenQ.Interpolation.derivative o t = .ok ((Polynomial.derivative p).eval t) := by
+  obtain ⟨wf, _, _, _⟩ := set_two_lists_ok TOL_pos TOL_le_one hset
+  refine ⟨derivative_eq wf ht, ?_⟩
+  intro p hdeg hval
+  rw [derivative_eq wf ht, (reproduces_polynomial xs ys o p hset hdeg hval).1]
+
 /-! ### Refusals -/
 
 /-- "refuses abscissae outside the table … with ValueError": an abscissa at least the tolerance beyond either end
@@ -265,5 +278,72 @@ theorem root_post_default (xs ys : List ℚ) (o : Interp) (v : ℚ) (m : Int)
   obtain ⟨r1, r2, y, hy, hyt⟩ := root_post_core (by rw [htol]; exact TOL_pos) hlim (by rw [hA, hB]; exact hfl) hr
   rw [htol] at hyt
   exact ⟨⟨hA ▸ r1, hB ▸ r2⟩, y, hy, hyt⟩
+
+/-! ### Extrema -/
+
+/-- "extremum finding returns an abscissa inside the interval at which its derivative vanishes" — partial
+    correctness: `minmax` is `root` applied to the interpolant of the nodal derivatives, which IS the derivative
+    `P'` of the interpolating polynomial; a returned `v` lies between the limits and inside the table, and
+    `|P'(v)| ≤ TOL` (or `v` is within the tolerance of a node `x_i` with `|P'(x_i)| ≤ TOL`: the node shortcut of
+    `__call__`). -/
+theorem minmax_post (xs ys : List ℚ) (o : Interp) (xl xh v : ℚ) (m : Int)
+    (hset : GenQ.Interpolation.set TOL [.list xs, .list ys] = .ok o)
+    (hnd : ¬ (xl = 0 ∧ xh = 0))
+    (hmeet : max (min xl xh) (xfirst o) ≤ min (max xl xh) (xlast o))
+    (hr : minmax o xl xh m = .ok v) :
+    (min xl xh ≤ v ∧ v ≤ max xl xh) ∧ (xfirst o ≤ v ∧ v ≤ xlast o) ∧
+    ∃ d, |d| ≤ TOL ∧ (d = (Polynomial.derivative (poly o)).eval v ∨
+      ∃ i < o.x.length, |v - nodes o.x i| < TOL ∧ d = (Polynomial.derivative (poly o)).eval (nodes o.x i)) := by
+  obtain ⟨wf, htol, _, _, hsep⟩ := set_two_lists_ok TOL_pos TOL_le_one hset
+  obtain ⟨heq, wfp⟩ := minmax_eq wf hsep xl xh m
+  rw [heq] at hr
+  obtain ⟨A, B, hlim⟩ := root_ok_limits hr
+  obtain ⟨hA, hB⟩ := (root_limits_spec wfp hlim).2 hnd
+  have hf : xfirst (prime_of o) = xfirst o := rfl
+  have hl : xlast (prime_of o) = xlast o := rfl
+  rw [hf] at hA
+  rw [hl] at hB
+  have hAB : A ≤ B := by rw [hA, hB]; exact hmeet
+  obtain ⟨r1, r2, d, hd, hdt⟩ := root_post_core (o := prime_of o) TOL_pos hlim hAB hr
+  refine ⟨⟨?_, ?_⟩, ⟨?_, ?_⟩, d, hdt, ?_⟩
+  · exact le_trans (le_max_left _ _) (hA ▸ r1)
+  · exact le_trans (hB ▸ r2) (min_le_left _ _)
+  · exact le_trans (le_max_right _ _) (hA ▸ r1)
+  · exact le_trans (hB ▸ r2) (min_le_right _ _)
+  · rw [call_eq wfp] at hd
+    cases hn : node_hit (prime_of o).tol v (prime_of o).x (prime_of o).y with
+    | some w =>
+      rw [hn] at hd
+      injection hd with hd
+      obtain ⟨i, hi, hclose, hw⟩ := node_hit_some _ v _ _ w wfp.len hn
+      right
+      refine ⟨i, hi, hclose, ?_⟩
+      rw [← hd, hw]
+      show nodes (o.x.map (fun xi => (Polynomial.derivative (poly o)).eval xi)) i = _
+      have hi' : i < o.x.length := hi
+      unfold nodes
+      rw [List.getD_eq_getElem _ 0 (by simpa using hi'), List.getD_eq_getElem _ 0 hi']
+      simp
+    | none =>
+      rw [hn] at hd
+      simp only at hd
+      split_ifs at hd
+      injection hd with hd
+      left; rw [← hd, poly_prime wf]
+
+/-! ### Non-vacuity: concrete tables satisfy the hypotheses used above -/
+
+example : (GenQ.Interpolation.set TOL [.list [3, 1, 2], .list [9, 1, 4]]).map (fun o => (o.x, o.y, o.table))
+    = .ok ([1, 2, 3], [1, 4, 9], [1, 3, 1]) := by decide +kernel
+example : (GenQ.Interpolation.set TOL [.list [3, 1, 2], .list [9, 1, 4]] >>= fun o => call o (5 / 2))
+    = .ok (25 / 4) := by decide +kernel
+example : (GenQ.Interpolation.set TOL [.list [3, 1, 2], .list [9, 1, 4]] >>= fun o => GenQ.Interpolation.derivative o (5 / 2))
+    = .ok 5 := by decide +kernel
+example : (GenQ.Interpolation.set TOL [.list [0, 1, 2], .list [-1, 1, 3]] >>= fun o => root o (1 / 4) 1 5)
+    = .ok (1 / 2) := by decide +kernel
+example : (GenQ.Interpolation.set TOL [.list [0, 1, 2], .list [3, 0, 1]] >>= fun o => minmax o (1 / 2) 2 5)
+    = .ok (5 / 4) := by decide +kernel
+example : (GenQ.Interpolation.set TOL [.list [0, 1, 2], .list [3, 0, 1]] >>= fun o => call o 3)
+    = .error .valueError := by decide +kernel
 
 end Pymeeus.C12
